@@ -30,8 +30,13 @@ void messageq_init(messageq_t *mq, void *basep, size_t base_len, size_t msg_len)
 
 void *messageq_claim(messageq_t *mq)
 {
-	/* get permission to allocate a message */
-	int num_free = atomic_fetch_sub(&mq->num_free, 1);
+	/* get permission to allocate a message
+	 *
+	 * The counter is an unsigned char but goes (transiently) negative when
+	 * several claims race for the last buffers: read it as a signed value
+	 * or a claim that overlaps a failing one sees 255 free buffers.
+	 */
+	int num_free = (signed char) atomic_fetch_sub(&mq->num_free, 1);
 	if (num_free <= 0) {
 		atomic_fetch_add(&mq->num_free, 1);
 		return NULL;
